@@ -268,6 +268,19 @@ def props_withdraw(E, res):
     P.append(('fee debt burnt', (sum(s.value for s in burns) if burns else 0) == pre['fd']))
     for s in others:
         P.append(('other sends carry no value and go to the power actor (pledge notification)', b_and(s.value == 0, s.to.key == POWER, s.to.proto == 0)))
+    # C03: the network pledge total follows the change of pledge + vesting funds
+    notified = 0
+    for s in others:
+        if implied(ctx, zv(s.method) == 6):      # UpdatePledgeTotal
+            obj = s.params.obj if isinstance(s.params, BlockV) else None
+            if obj is None:
+                P.append(('pledge notification carries typed params', False))
+            else:
+                notified = notified + big(E, obj)
+        else:
+            P.append(('the only call to the power actor is UpdatePledgeTotal', False))
+    P.append(('pledge notifications to the power actor add up to the change of pledge + vesting funds (newly vested funds leave the network total)',
+              notified == (led['ip'] + led['lf']) - (pre['ip'] + pre['lf'])))
     P.append(('quota consumption recorded', b['used'] == z3.If(third, a['used'] + amount, a['used'])))
     P += [(l.replace('control fields', 'withdraw'), f) for (l, f) in C13.control_frame(ctx, a, b)]
     P.append(('term limits untouched', z3.And(b['quota'] == a['quota'], b['exp'] == a['exp'])))
